@@ -34,6 +34,8 @@ def run_one(name):
             if sh('git', '-C', wt, 'apply', '--check', fx).returncode == 0:
                 sh('git', '-C', wt, 'apply', fx)
                 onfix = True
+            elif sh('git', '-C', wt, 'apply', '-R', '--check', fx).returncode == 0:
+                onfix = True                 # /repo already contains this fix
         if name == 'BASE':
             patch = None
         else:
